@@ -11,6 +11,11 @@
 //!                 traffic is black-holed from some packet on);
 //! * `exhaustive`  all fate vectors over the first n emitted packets for
 //!                 transfers of <= 2 segments each way;
+//! * `abort-under-slow-reader` / `teardown`  the class "peer's bytes and FIN sit
+//!                 unread, the connection is aborted (retransmit exhaustion under a
+//!                 black hole, or a RST from a peer that closed with unread bytes),
+//!                 the reader reads again": random recipe over ordinary scenario
+//!                 fields, and a small enumerated family;
 //! * `e2e`         the same programs inside `fixture::ClientServer` with a
 //!                 table-driven `Rule` closure, and inside `fixture::lo`;
 //! * `probe`       strict replays of the known findings.
@@ -21,7 +26,9 @@
 //! * SAFETY, always: every byte read equals `pat(key, offset)` of the peer's
 //!   stream, offsets are contiguous, a reader never gets ahead of what the
 //!   peer has written, and `Ok(0)` is only observed after the peer closed its
-//!   write side and at an offset equal to everything the peer wrote.
+//!   write side and at an offset equal to everything the peer wrote (so an abort
+//!   that throws away accepted-but-unread bytes must reach the reader as an
+//!   error: end-of-file there would be silent loss).
 //! * LIVENESS, within budget: no operation fails, every reader sees all bytes
 //!   and then EOF, all tasks finish within R rounds.
 //! * BEYOND budget: errors are of the connection-failure kinds, and a host
@@ -108,6 +115,27 @@ pub struct Scenario {
     pub drop_acks: bool,
     /// strict: known-finding patterns are reported as failures (probes)
     pub strict: bool,
+    /// further program dimensions (kept last so that older replay files and fuzz inputs still decode)
+    #[serde(default)]
+    pub ext: Ext,
+}
+
+/// Program dimensions beyond `Side`; index 0 = client, 1 = server.  The default is the old
+/// behaviour: every reader reads to EOF and every writer half-closes right after its last write.
+#[derive(Clone, Debug, Default, Serialize, Deserialize, PartialEq)]
+pub struct Ext {
+    /// `Some((n, linger))`: this side's reader takes only the first `n` bytes (0: none), waits for
+    /// its own writer (which half-closes), sleeps `linger` rounds and drops the stream without
+    /// reading the rest.  With unread bytes buffered that is an abortive close: the peer gets a RST.
+    pub quit: [Option<(u16, u8)>; 2],
+    /// rounds this side's writer sleeps between its last write and its shutdown() (a late FIN:
+    /// the side goes on owning an open write half while the peer's FIN is already in, CLOSE-WAIT)
+    pub fin_delay: [u8; 2],
+}
+impl Ext {
+    pub fn quits(&self) -> bool {
+        self.quit.iter().any(|q| q.is_some())
+    }
 }
 
 // ---------------------------------------------------------------- programs
@@ -122,7 +150,14 @@ fn writes_ops(side: &Side, key: u8, ops: &mut Vec<Op>) {
         }
     }
 }
-fn reader_ops(side: &Side, key: u8, peer_total: u32, ops: &mut Vec<Op>) {
+fn reader_ops(side: &Side, quit: Option<(u16, u8)>, key: u8, peer_total: u32, ops: &mut Vec<Op>) {
+    if let Some((n, _)) = quit {
+        // takes a prefix only; the stream is dropped by the caller's epilogue
+        if n > 0 {
+            ops.push(Op::Read { conn: 0, bufs: side.bufs.clone(), until: Until::Bytes(n as u32), key });
+        }
+        return;
+    }
     let mut left = peer_total;
     for (n, sl) in &side.read_steps {
         let n = (*n as u32).min(left);
@@ -166,35 +201,56 @@ pub fn build_scripts(sc: &Scenario) -> Vec<Script> {
     let mut s_r = vec![Op::WaitConn { conn: 0 }];
     let mut c_w = vec![Op::Connect { conn: 0, to, port: PORT, v6: sc.v6 }];
     let mut c_r = vec![Op::WaitConn { conn: 0 }];
-    reader_ops(&sc.server, KEY_C2S, total(&sc.client), &mut s_r);
-    reader_ops(&sc.client, KEY_S2C, total(&sc.server), &mut c_r);
+    reader_ops(&sc.server, sc.ext.quit[1], KEY_C2S, total(&sc.client), &mut s_r);
+    reader_ops(&sc.client, sc.ext.quit[0], KEY_S2C, total(&sc.server), &mut c_r);
+    let late_fin = |who: usize, ops: &mut Vec<Op>| {
+        if sc.ext.fin_delay[who] > 0 {
+            ops.push(Op::Sleep { rounds: sc.ext.fin_delay[who] as u32 });
+        }
+    };
     match sc.reply {
         Reply::None => {
             writes_ops(&sc.server, KEY_S2C, &mut s_w);
+            late_fin(1, &mut s_w);
             s_w.push(Op::Shutdown { conn: 0 });
             writes_ops(&sc.client, KEY_C2S, &mut c_w);
+            late_fin(0, &mut c_w);
             c_w.push(Op::Shutdown { conn: 0 });
         }
         Reply::Server => {
             writes_ops(&sc.client, KEY_C2S, &mut c_w);
+            late_fin(0, &mut c_w);
             c_w.push(Op::Shutdown { conn: 0 });
             writes_ops(&sc.server, KEY_S2C, &mut s_r);
+            late_fin(1, &mut s_r);
             if !sc.fin_by_drop {
                 s_r.push(Op::Shutdown { conn: 0 });
             }
         }
         Reply::Client => {
             writes_ops(&sc.server, KEY_S2C, &mut s_w);
+            late_fin(1, &mut s_w);
             s_w.push(Op::Shutdown { conn: 0 });
             writes_ops(&sc.client, KEY_C2S, &mut c_r);
+            late_fin(0, &mut c_r);
             if !sc.fin_by_drop {
                 c_r.push(Op::Shutdown { conn: 0 });
             }
         }
     }
     s_r.push(Op::WaitTask { task: 0 });
+    if let Some((_, linger)) = sc.ext.quit[1] {
+        if linger > 0 {
+            s_r.push(Op::Sleep { rounds: linger as u32 });
+        }
+    }
     s_r.push(Op::Drop { conn: 0 });
     c_r.push(Op::WaitTask { task: 2 });
+    if let Some((_, linger)) = sc.ext.quit[0] {
+        if linger > 0 {
+            c_r.push(Op::Sleep { rounds: linger as u32 });
+        }
+    }
     c_r.push(Op::Drop { conn: 0 });
     vec![
         Script { host: sh, ops: fix(s_w, sslot) },
@@ -208,6 +264,9 @@ pub fn build_scripts(sc: &Scenario) -> Vec<Script> {
 
 fn sleeps(side: &Side) -> u32 {
     side.writes.iter().map(|w| w.1 as u32).sum::<u32>() + side.read_steps.iter().map(|r| r.1 as u32).sum::<u32>()
+}
+fn ext_sleeps(ext: &Ext) -> u32 {
+    ext.fin_delay.iter().map(|d| *d as u32).sum::<u32>() + ext.quit.iter().flatten().map(|q| q.1 as u32).sum::<u32>()
 }
 fn reader_pauses(sc: &Scenario) -> bool {
     sc.client.read_steps.iter().any(|r| r.1 > 0) || sc.server.read_steps.iter().any(|r| r.1 > 0)
@@ -258,6 +317,11 @@ pub fn within_budget(sc: &Scenario) -> bool {
     if sc.plan.blackhole.is_some() {
         return false;
     }
+    // a side that closes without reading everything aborts the connection on purpose: the
+    // liveness claim is about connections that no program tears down
+    if sc.ext.quits() {
+        return false;
+    }
     let slack = slack(sc);
     match max_hold(&sc.cfg, sc.plan.max_drops, slack) {
         Some(d) => sc.plan.max_hold <= d && sc.plan.max_drops <= sc.cfg.retx_max,
@@ -271,7 +335,7 @@ pub fn within_budget(sc: &Scenario) -> bool {
 pub fn round_bound(sc: &Scenario) -> u32 {
     let bytes = total(&sc.client) + total(&sc.server);
     let per = sc.cfg.retx_threshold + 2 * sc.plan.max_hold + 3;
-    4 * ((bytes + 12 + sc.plan.max_drops + sc.plan.by_id.len() as u32 / 4) * per + sleeps(&sc.client) + sleeps(&sc.server)) + 64
+    4 * ((bytes + 12 + sc.plan.max_drops + sc.plan.by_id.len() as u32 / 4) * per + sleeps(&sc.client) + sleeps(&sc.server) + ext_sleeps(&sc.ext)) + 64
 }
 
 // ---------------------------------------------------------------- wire
@@ -543,8 +607,8 @@ fn judge(sc: &Scenario, seen: &Seen, slow_rerun: Option<&Seen>, out: &mut Outcom
         }
         return;
     }
-    // BEYOND budget
-    out.label("result:beyond-budget-incomplete");
+    // BEYOND budget, or torn down by a program
+    out.label(if sc.ext.quits() && sc.plan.blackhole.is_none() { "result:torn-down-by-program-incomplete" } else { "result:beyond-budget-incomplete" });
     let scripts = build_scripts(sc);
     for f in &failed {
         if let Ev::Failed { what, err, .. } = &f.ev {
@@ -624,9 +688,12 @@ fn classify(sc: &Scenario, seen: &Seen, out: &mut Outcome) {
         }
         out.label(format!("seen:{}", p.kind.name()));
     }
+    nt |= teardown_labels(sc, seen, out);
     out.nontrivial = nt;
     out.label(if sc.plan.blackhole.is_some() {
         "class:beyond-budget(blackhole)"
+    } else if sc.ext.quits() {
+        "class:program-closes-without-reading-everything"
     } else if within_budget(sc) {
         "class:within-budget"
     } else {
@@ -668,6 +735,75 @@ fn classify(sc: &Scenario, seen: &Seen, out: &mut Outcome) {
     }
     out.count("packets", seen.pkts.len() as u64);
     out.count("rounds", seen.rounds as u64);
+}
+
+/// Histories in which a connection ends other than by the two FINs, seen from each reader: was
+/// the peer's FIN already in (acknowledged by the reader's end) when the abort happened, were
+/// accepted bytes still unread, and what did the reader get afterwards.  Labels only; the verdict
+/// on such a history is the SAFETY clause on `Ok(0)`.  Returns true if the history is one of the
+/// class "aborted after the peer's FIN with unread bytes" (counts as non-trivial).
+fn teardown_labels(sc: &Scenario, seen: &Seen, out: &mut Outcome) -> bool {
+    for who in 0..2 {
+        if sc.ext.quit[who].is_some() {
+            out.label("program:quits-reading-and-drops");
+        }
+        if sc.ext.fin_delay[who] > 0 {
+            out.label("program:late-shutdown");
+        }
+    }
+    let mut hit = false;
+    // per direction: bytes accepted by write calls / bytes read / how the reader ended
+    let mut written = [0u64; 2];
+    let mut read = [0u64; 2];
+    let mut ended: [Option<(u32, String)>; 2] = [None, None];
+    // first round in which an operation of this side (0 = client) reported an abort
+    let mut abort_round: [Option<(u32, String)>; 2] = [None, None];
+    for o in &seen.obs {
+        let side = if is_client_task(o.task) { 0 } else { 1 };
+        match &o.ev {
+            Ev::Wrote { n, .. } => written[side] += *n as u64,
+            Ev::ReadN { n, .. } => read[1 - side] += *n as u64,
+            Ev::Eof { .. } => ended[1 - side] = Some((o.round, "eof".into())),
+            Ev::Failed { what, err, .. } => {
+                if *what == "read" {
+                    ended[1 - side] = Some((o.round, err.kind.clone()));
+                }
+                if (err.is("TimedOut") || err.is("ConnectionReset")) && abort_round[side].is_none() {
+                    abort_round[side] = Some((o.round, err.kind.clone()));
+                }
+            }
+            _ => {}
+        }
+    }
+    let Some(tr) = seen.tracker.as_ref() else { return false };
+    let Some(c) = tr.conns.last() else { return false };
+    for rdir in 0..2 {
+        // direction rdir is written by side `rdir` (0 = client) and read by the other side
+        let (w, r) = (rdir, 1 - rdir);
+        let fin_in = c.ends[w].fin_emitted && c.ends[r].isn.is_some() && c.ends[r].max_ack_emitted == Some(c.ends[w].max_end);
+        let Some((_, kind)) = &abort_round[r] else { continue };
+        out.label(format!("teardown:reader-side-aborted:{kind}"));
+        if !fin_in {
+            continue;
+        }
+        let unread = read[rdir] < written[rdir];
+        match (&ended[rdir], unread) {
+            (Some((_, how)), true) if how != "eof" => {
+                hit = true;
+                out.label(format!("teardown:aborted-after-peer-fin-with-unread-bytes:reader-got-{how}"));
+            }
+            (Some((_, how)), false) => out.label(format!("teardown:aborted-after-peer-fin-all-read:reader-got-{how}")),
+            (Some(_), true) => {}
+            (None, _) => out.label("teardown:aborted-after-peer-fin:reader-never-read-again"),
+        }
+    }
+    // a RST that arrived after both FINs must not abort anything: the reader still gets everything
+    for e in 0..2 {
+        if c.ends[e].rst_delivered && c.ends[e].fin_emitted && c.ends[1 - e].fin_emitted {
+            out.label("teardown:rst-delivered-to-an-end-that-had-sent-its-fin");
+        }
+    }
+    hit
 }
 
 pub fn trace(seen: &Seen) {
@@ -1036,7 +1172,143 @@ fn fit_budget(sc: &mut Scenario) {
     }
 }
 
+/// Parameters of the generator class "the connection is aborted under a slow reader": one side
+/// (the victim) reads `first` bytes and then pauses longer than anything else in the run takes,
+/// while its peer writes more than that and half-closes, so that the peer's bytes and FIN sit
+/// unread in the victim's receive buffer; meanwhile the connection is aborted, and then the
+/// victim's reader goes on reading.  Only a recipe over ordinary scenario fields (`Side`, `Ext`,
+/// `FatePlan::blackhole`); `run` knows nothing about it.
+#[derive(Clone, Copy, Debug, PartialEq)]
+pub struct Teardown {
+    pub victim_server: bool,
+    /// bytes the victim's reader takes before it pauses (1..=6)
+    pub first: u16,
+    /// the peer writes at least first + 1 + more bytes (0..=16)
+    pub more: u32,
+    /// the pause is everything that is scheduled before + a whole retransmit budget + extra (0..=6)
+    pub extra: u32,
+    /// rounds added before the victim's first write (0..=6): it writes while the peer's FIN is already in
+    pub late: u8,
+    /// keep the generated fate plan (clamped into the budget) or have no other fault
+    pub keep_plan: bool,
+    /// shrink the peer's transfer (and `first`) so that it fits the send and receive caps, i.e. its
+    /// FIN can get in although the victim neither reads nor is heard any more
+    pub fit: bool,
+    pub cause: Cause,
+}
+#[derive(Clone, Copy, Debug, PartialEq)]
+pub enum Cause {
+    /// everything the victim's host emits from packet `from` (2..=33) on is lost: its own data /
+    /// FIN run out of retransmissions
+    Blackhole { from: u32 },
+    /// the peer takes `read` (0..=8) bytes of the victim's stream and, `linger` (0..=6) rounds
+    /// after its own half-close, drops its stream (RST if bytes are unread); `fin_late`: the
+    /// victim holds its own shutdown back until after its pause (otherwise both FINs are out
+    /// when the RST arrives and the stream is complete)
+    PeerQuits { read: u16, linger: u8, fin_late: bool },
+}
+
+pub fn apply_teardown(sc: &mut Scenario, td: &Teardown) {
+    sc.reply = Reply::None;
+    sc.fin_by_drop = false;
+    sc.ext = Ext::default();
+    if !td.keep_plan {
+        sc.plan = FatePlan::default();
+    }
+    sc.plan.blackhole = None;
+    fit_budget(sc);
+    let (v, p) = if td.victim_server { (1usize, 0usize) } else { (0usize, 1usize) };
+    let max_hold = sc.plan.max_hold;
+    let budget = (sc.cfg.retx_max + 2) * sc.cfg.retx_threshold + 2;
+    let (victim, peer) = if td.victim_server { (&mut sc.server, &mut sc.client) } else { (&mut sc.client, &mut sc.server) };
+    let mut first = td.first;
+    let mut want = td.first as u32 + 1 + td.more;
+    let cap = sc.cfg.send_cap.min(sc.cfg.recv_cap).min(1 << 20) as u32;
+    if td.fit && cap >= 2 {
+        first = first.min((cap - 1).min(u16::MAX as u32) as u16);
+        want = want.min(cap);
+        let mut room = cap;
+        for w in peer.writes.iter_mut() {
+            w.0 = w.0.min(room);
+            room -= w.0;
+        }
+    }
+    let have = total(peer);
+    if have < want {
+        peer.writes.push((want - have, 0));
+    }
+    if let Some(w) = victim.writes.first_mut() {
+        w.1 = w.1.saturating_add(td.late);
+    }
+    let mut before = 2 * max_hold + victim.writes.iter().chain(peer.writes.iter()).map(|w| w.1 as u32).sum::<u32>();
+    let mut fin_late = false;
+    match td.cause {
+        Cause::Blackhole { from } => sc.plan.blackhole = Some((v, from)),
+        Cause::PeerQuits { read, linger, fin_late: fl } => {
+            // something of the victim's stream stays unread at the peer
+            let have = total(victim);
+            if have <= read as u32 {
+                victim.writes.push((read as u32 + 1 - have, 0));
+            }
+            sc.ext.quit[p] = Some((read, linger));
+            before += linger as u32;
+            fin_late = fl;
+        }
+    }
+    let pause = (before + budget + td.extra).min(250) as u8;
+    victim.read_steps = vec![(first, pause)];
+    if fin_late {
+        sc.ext.fin_delay[v] = pause.saturating_add(4);
+    }
+}
+
+/// The slow-reader class: no faults at all, one reader pauses longer than a whole retransmit budget.
+fn apply_slow(sc: &mut Scenario, server_reads_slowly: bool, first: u16, extra: u32) {
+    sc.plan = FatePlan::default();
+    sc.reply = Reply::None;
+    sc.fin_by_drop = false;
+    sc.ext = Ext::default();
+    let pause = ((sc.cfg.retx_max + 2) * sc.cfg.retx_threshold + 2 + extra).min(255) as u8;
+    let fill = (sc.cfg.recv_cap.min(48) + 8) as u32;
+    let (reader, writer) = if server_reads_slowly { (&mut sc.server, &mut sc.client) } else { (&mut sc.client, &mut sc.server) };
+    reader.read_steps = vec![(first, pause)];
+    if writer.writes.iter().map(|w| w.0).sum::<u32>() < fill {
+        writer.writes.push((fill, 0));
+    }
+}
+
+fn teardown_strategy() -> BoxedStrategy<Teardown> {
+    (
+        any::<bool>(),
+        1u16..=6,
+        0u32..=16,
+        0u32..=6,
+        0u8..=6,
+        any::<bool>(),
+        prop_oneof![3 => Just(true), 1 => Just(false)],
+        prop_oneof![
+            1 => prop_oneof![4 => 2u32..8, 2 => 8u32..16, 1 => 16u32..34].prop_map(|from| Cause::Blackhole { from }),
+            1 => (0u16..=8, 0u8..=6, prop_oneof![3 => Just(true), 1 => Just(false)])
+                .prop_map(|(read, linger, fin_late)| Cause::PeerQuits { read, linger, fin_late }),
+        ],
+    )
+        .prop_map(|(victim_server, first, more, extra, late, keep_plan, fit, cause)| Teardown { victim_server, first, more, extra, late, keep_plan, fit, cause })
+        .boxed()
+}
+
+/// Sprinkled program dimensions of `Ext` (any combination with everything else).
+fn ext_strategy() -> BoxedStrategy<Ext> {
+    let quit = || prop_oneof![15 => Just(None), 1 => (0u16..=8, 0u8..=6).prop_map(Some)];
+    let delay = || prop_oneof![7 => Just(0u8), 1 => 1u8..=6];
+    (quit(), quit(), delay(), delay()).prop_map(|(q0, q1, d0, d1)| Ext { quit: [q0, q1], fin_delay: [d0, d1] }).boxed()
+}
+
 pub fn strategy() -> BoxedStrategy<Scenario> {
+    strategy_w(1, 5)
+}
+
+/// `strategy()` with the aborted-under-a-slow-reader class drawn with odds `td` : `other`.
+fn strategy_w(td: u32, other: u32) -> BoxedStrategy<Scenario> {
     (
         cfg_strategy(),
         side_strategy(),
@@ -1049,8 +1321,11 @@ pub fn strategy() -> BoxedStrategy<Scenario> {
         prop_oneof![7 => Just(None), 1 => (0usize..2, 0u32..24).prop_map(Some)],
         // slow-reader class: no faults at all, one reader pauses longer than a whole retransmit budget
         prop_oneof![7 => Just(None), 1 => (any::<bool>(), 1u16..=6, 0u32..=6).prop_map(Some)],
+        ext_strategy(),
+        // aborted-under-a-slow-reader class
+        prop_oneof![other => Just(None), td => teardown_strategy().prop_map(Some)],
     )
-        .prop_map(|((cfg, v6), client, server, reply, fbd, plan, drop_acks, black, slow)| {
+        .prop_map(|((cfg, v6), client, server, reply, fbd, plan, drop_acks, black, slow, ext, teardown)| {
             let mut sc = Scenario {
                 mode: Mode::Wire,
                 cfg,
@@ -1062,18 +1337,14 @@ pub fn strategy() -> BoxedStrategy<Scenario> {
                 plan,
                 drop_acks,
                 strict: false,
+                ext,
             };
+            if let Some(td) = teardown {
+                apply_teardown(&mut sc, &td);
+                return sc;
+            }
             if let Some((server_reads_slowly, first, extra)) = slow {
-                sc.plan = FatePlan::default();
-                sc.reply = Reply::None;
-                sc.fin_by_drop = false;
-                let pause = ((sc.cfg.retx_max + 2) * sc.cfg.retx_threshold + 2 + extra).min(255) as u8;
-                let fill = (sc.cfg.recv_cap.min(48) + 8) as u32;
-                let (reader, writer) = if server_reads_slowly { (&mut sc.server, &mut sc.client) } else { (&mut sc.client, &mut sc.server) };
-                reader.read_steps = vec![(first, pause)];
-                if writer.writes.iter().map(|w| w.0).sum::<u32>() < fill {
-                    writer.writes.push((fill, 0));
-                }
+                apply_slow(&mut sc, server_reads_slowly, first, extra);
                 return sc;
             }
             fit_budget(&mut sc);
@@ -1088,7 +1359,14 @@ pub fn e2e_strategy() -> BoxedStrategy<Scenario> {
     (strategy(), prop_oneof![4 => Just(Mode::ClientServer), 1 => Just(Mode::Lo)])
         .prop_map(|(mut sc, mode)| {
             sc.mode = mode;
-            sc.plan.blackhole = None;
+            // no black-holing in the fixtures: a scenario of the aborted-under-a-slow-reader class
+            // that relied on it becomes an ordinary within-budget one, so its long reader pause is
+            // cut back to what the budget accounts for (unless no fault is planned at all)
+            if sc.plan.blackhole.take().is_some() && !sc.ext.quits() && sc.plan != FatePlan::default() {
+                for r in sc.client.read_steps.iter_mut().chain(sc.server.read_steps.iter_mut()) {
+                    r.1 = r.1.min(3);
+                }
+            }
             sc.plan.prio.clear();
             for w in sc.client.writes.iter_mut().chain(sc.server.writes.iter_mut()) {
                 w.0 = w.0.min(64);
@@ -1134,6 +1412,7 @@ fn exhaustive_bases() -> Vec<Scenario> {
         plan: FatePlan::default(),
         drop_acks: true,
         strict: false,
+        ext: Ext::default(),
     };
     vec![
         mk(&[4], &[], Reply::None, false, 65536, 65536, &[1024]),
@@ -1202,6 +1481,54 @@ fn exhaustive_space(n: usize, max_drops: usize) -> impl Iterator<Item = Scenario
     })
 }
 
+/// Small family of the aborted-under-a-slow-reader class, enumerated: victim side x cause (black
+/// hole from packet 2..=9 | peer quits after 0..=2 bytes, lingering 0..=2 rounds, victim's FIN
+/// late or not) x bytes taken before the pause x victim's write program x retransmit settings x
+/// reader buffer.  No other fault.
+fn teardown_space() -> impl Iterator<Item = Scenario> + Send {
+    let mut causes: Vec<Cause> = (2u32..=9).map(|from| Cause::Blackhole { from }).collect();
+    for read in 0u16..=2 {
+        for linger in 0u8..=2 {
+            for fin_late in [true, false] {
+                causes.push(Cause::PeerQuits { read, linger, fin_late });
+            }
+        }
+    }
+    let victim_writes: [&[(u32, u8)]; 3] = [&[], &[(5, 0)], &[(3, 0), (3, 4)]];
+    let mut v = Vec::new();
+    for victim_server in [false, true] {
+        for cause in &causes {
+            for first in [1u16, 3] {
+                for vw in victim_writes {
+                    for (t, m) in [(1u32, 1u32), (2, 2), (3, 5)] {
+                        for buf in [1024u16, 2] {
+                            let mut sc = Scenario {
+                                mode: Mode::Wire,
+                                cfg: Cfg { mtu: 44, loopback_mtu: 65536, send_cap: 65536, recv_cap: 65536, retx_threshold: t, retx_max: m },
+                                v6: false,
+                                client: Side { writes: vec![], bufs: vec![buf], read_steps: vec![] },
+                                server: Side { writes: vec![], bufs: vec![buf], read_steps: vec![] },
+                                reply: Reply::None,
+                                fin_by_drop: false,
+                                plan: FatePlan::default(),
+                                drop_acks: true,
+                                strict: false,
+                                ext: Ext::default(),
+                            };
+                            let victim = if victim_server { &mut sc.server } else { &mut sc.client };
+                            victim.writes = vw.to_vec();
+                            let td = Teardown { victim_server, first, more: 4, extra: 1, late: 0, keep_plan: false, fit: true, cause: *cause };
+                            apply_teardown(&mut sc, &td);
+                            v.push(sc);
+                        }
+                    }
+                }
+            }
+        }
+    }
+    v.into_iter()
+}
+
 // ---------------------------------------------------------------- probes for the known findings
 
 fn probe_base() -> Scenario {
@@ -1216,6 +1543,7 @@ fn probe_base() -> Scenario {
         plan: FatePlan { max_drops: 1, ..FatePlan::default() },
         drop_acks: true,
         strict: true,
+        ext: Ext::default(),
     }
 }
 
@@ -1304,15 +1632,23 @@ fn check(tier: Tier, seed: u64) -> i32 {
         Box::new(exhaustive_space(n, k)),
         &run,
     );
+    ctx.exhaustive(
+        "teardown",
+        "aborted-under-a-slow-reader family, no other fault: victim side (2) x cause (black hole of the victim's host from packet 2..=9 | peer takes 0..=2 bytes, lingers 0..=2 rounds and drops its stream, victim's own FIN held back or not: 26) x bytes the victim's reader takes before it pauses past everything else (1, 3) x victim's writes (none / 5 / 3 then 3 four rounds later) x (retx_threshold, retx_max) in {(1,1),(2,2),(3,5)} x reader buffer (1024, 2), MSS 4, each executed from scratch",
+        Box::new(teardown_space()),
+        &run,
+    );
+    ctx.random("abort-under-slow-reader", tier.pick(8_000, 60_000), &|| strategy_w(31, 1), &run);
     ctx.random("e2e", tier.pick(1_500, 20_000), &|| e2e_strategy(), &run);
     ctx.finish(
-        "random walks: KernelConfig (MSS 1..1460 via mtu, send/recv caps 1..64K, retx_threshold 1-4, retx_max 1-5, v4/v6) x client/server programs (0-3 writes of 1-300 bytes with pauses, reader buffers 1-1024 bytes with optional pauses, half-close / reply-after-EOF / FIN-by-drop) x fate plan (per emission number and per n-th packet of a kind: deliver now / hold 1-12 rounds / drop, delivery priority inside a round), drops <= D <= retx_max and hold d with 2d <= (retx_max-D-slack)*T - 2 so that no legitimate retransmit exhaustion exists, or the beyond-budget class (all packets of one host black-holed from packet k on). Non-trivial = at least one packet dropped or overtaken by a later packet of the same direction; distinct by scenario hash.",
+        "random walks: KernelConfig (MSS 1..1460 via mtu, send/recv caps 1..64K, retx_threshold 1-4, retx_max 1-5, v4/v6) x client/server programs (0-3 writes of 1-300 bytes with pauses, reader buffers 1-1024 bytes with optional pauses, half-close / reply-after-EOF / FIN-by-drop) x fate plan (per emission number and per n-th packet of a kind: deliver now / hold 1-12 rounds / drop, delivery priority inside a round), drops <= D <= retx_max and hold d with 2d <= (retx_max-D-slack)*T - 2 so that no legitimate retransmit exhaustion exists, or the beyond-budget class (all packets of one host black-holed from packet k on); sprinkled program dimensions: a writer that delays its shutdown 1-6 rounds, a side that takes only the first 0-8 bytes, lingers 0-6 rounds after its own half-close and drops its stream (abortive close, RST, if bytes are unread); and the aborted-under-a-slow-reader class (1/6 of `walk`, 31/32 of `abort-under-slow-reader`, enumerated small family in `teardown`): the peer writes more than the victim's reader takes before it pauses past everything else in the run and half-closes, so its bytes and FIN sit unread at the victim, the connection is then aborted (the victim's host is black-holed from packet 2..33 on while it still has data or its FIN to send, possibly written only after the peer's FIN came in; or the peer closes with unread bytes while the victim has not yet shut down), and the victim's reader reads again. Non-trivial = at least one packet dropped or overtaken by a later packet of the same direction, or a reader that still had unread bytes and the peer's FIN in when its connection was aborted and that read afterwards; distinct by scenario hash.",
         &[
             "one egress_all per round; retransmission in turmoil-net is clocked by egress passes, so rounds are the only clock",
             "packet kinds are derived from public packet fields only (flags, seq/ack/window, payload length)",
             "within budget the reader task only reads; with reordering possible, scripted reader pauses are <= 3 rounds and count as 2 extra lost copies in the budget (plus 1 for a first segment that overtakes the handshake ACK); without any fault a reader may pause longer than a whole retransmit budget (slow-reader class)",
             "round bound R = 4*((bytes+12+D+plan/4)*(T+2d+3)+pauses)+64; a run that hits it is re-run with 10*R before it is called a stall; a run in which nothing can happen any more (no runnable task, nothing in flight, no emission for T*(M+2)+2+d rounds) is a definitive stall",
             "packet duplication is never generated (outside the documented fault model)",
+            "a scenario in which a side closes without reading everything (program-made abort) or a host is black-holed carries no liveness claim: only the SAFETY clauses (bytes read are a prefix of bytes written; Ok(0) only after the peer closed its write side and only at the offset of everything its write calls accepted, so an abort that discards accepted-but-unread bytes has to show up as an error to that reader, never as end-of-file), the error kinds, and 'no task parked for ever on an end that still has unacknowledged sequence space'",
             "tolerance is status-driven: a within-budget run that fails liveness and shows the wire pattern of a C06 finding whose entry in known_findings.json has status \"known\" (F-C06-1 duplicate never re-ACKed / lost ACK never repeated, F-C06-2 sender left with a zero window, F-C06-3 handshake retransmit counters carried over, F-C06-4 delivered ACK ignored after a go-back-N rewind, F-C06-5 late RST after a clean close) is excluded and counted, safety clauses are still checked on it, and the fixture::lo generator avoids the F-C06-2 shape only while F-C06-2 is known; a finding with status \"fixed\" suppresses nothing and its signature is reported as a violation again; the strict replays always assert the full clause",
             "fixture sub-tier: Deliver(k ms) = k fixture ticks; delivery order inside a tick is the fixture's own; loopback traffic never meets a rule",
         ],
@@ -1344,8 +1680,9 @@ pub fn dump_probes() -> Vec<(&'static str, Scenario)> {
 /// Clamp a byte-decoded scenario (engine::bytesde) into exactly the domain of `strategy()` (sub
 /// `walk`): every field is first mapped into the range of the generator's *raw* draw and then the
 /// same derivation as in `strategy()`'s `prop_map` is applied (fin_by_drop needs a replying side,
-/// slow-reader class, `fit_budget`, black-hole class).  The two draws of the strategy that have
-/// no field of their own (slow-reader class and its parameters) take their entropy from
+/// slow-reader class, aborted-under-a-slow-reader class, `fit_budget`, black-hole class).  The
+/// draws of the strategy that have no field of their own (slow-reader class, aborted-under-a-slow-
+/// reader class and their parameters) take their entropy from
 /// `cfg.loopback_mtu`, which the strategy fixes at 65536; `mode` and `strict` are forced to the
 /// only values the strategy produces (Wire, false).
 pub fn fuzz_sanitize(sc: &mut Scenario) -> bool {
@@ -1429,21 +1766,48 @@ pub fn fuzz_sanitize(sc: &mut Scenario) -> bool {
         Some((h, from)) if (h >> 1) & 1 == 0 => Some((h % 2, from % 24)),
         _ => None,
     };
+    // ext_strategy: quit (n 0..=8, linger 0..=6) on either side, late shutdown 0..=6 rounds
+    // (the generator gives quit 1/16 per side; here: Option bit and two more bits)
+    for q in sc.ext.quit.iter_mut() {
+        *q = match *q {
+            Some((n, l)) if (l >> 3) % 4 == 0 => Some((n % 9, l % 7)),
+            _ => None,
+        };
+    }
+    for d in sc.ext.fin_delay.iter_mut() {
+        *d = if (*d >> 3) % 4 == 0 { *d % 7 } else { 0 };
+    }
+    // aborted-under-a-slow-reader class (teardown_strategy), parameters from the higher bits
+    if sel % 8 == 6 {
+        let mut e = sel >> 3;
+        let mut take = |n: u32| {
+            let v = e % n;
+            e /= n;
+            v
+        };
+        let victim_server = take(2) == 1;
+        let first = 1 + take(6) as u16;
+        let more = take(17);
+        let extra = take(7);
+        let late = take(7) as u8;
+        let keep_plan = take(2) == 1;
+        let fit = take(4) != 0;
+        let cause = if take(2) == 0 {
+            Cause::Blackhole { from: 2 + take(32) }
+        } else {
+            let read = take(9) as u16;
+            let linger = take(7) as u8;
+            Cause::PeerQuits { read, linger, fin_late: take(4) != 0 }
+        };
+        apply_teardown(sc, &Teardown { victim_server, first, more, extra, late, keep_plan, fit, cause });
+        return true;
+    }
     // slow-reader class
     if sel % 8 == 7 {
         let server_reads_slowly = (sel >> 3) & 1 == 1;
         let first = 1 + ((sel >> 4) % 6) as u16;
         let extra = (sel >> 8) % 7;
-        sc.plan = FatePlan::default();
-        sc.reply = Reply::None;
-        sc.fin_by_drop = false;
-        let pause = ((sc.cfg.retx_max + 2) * sc.cfg.retx_threshold + 2 + extra).min(255) as u8;
-        let fill = (sc.cfg.recv_cap.min(48) + 8) as u32;
-        let (reader, writer) = if server_reads_slowly { (&mut sc.server, &mut sc.client) } else { (&mut sc.client, &mut sc.server) };
-        reader.read_steps = vec![(first, pause)];
-        if writer.writes.iter().map(|w| w.0).sum::<u32>() < fill {
-            writer.writes.push((fill, 0));
-        }
+        apply_slow(sc, server_reads_slowly, first, extra);
         return true;
     }
     fit_budget(sc);
